@@ -135,7 +135,7 @@ Proof.
       pose proof (pad4_r (yr m) ltac:(lia)) as R. destruct (Hhead _ _ _ R) as (x & a & E & Hx). rewrite E in *.
       exists x, a. split; [reflexivity|]. split; [exact Hx|]. cbn [step parse_spec].
       assert (Hl : (length ((x :: a) ++ R') <? 4)%nat = false).
-      { apply Nat.ltb_ge. rewrite app_length. destruct R as [_ _ _ Hw]. cbn in Hw. rewrite Hw. lia. }
+      { apply Nat.ltb_ge. rewrite app_length. pose proof (r_width _ _ _ R) as Hw. cbv beta iota in Hw. lia. }
       rewrite Hl. rewrite (take_at_most_ok 4 _ (yr m) R' R) by lia. reflexivity.
     + (* %m *)
       pose proof (pad2_r (mo m) ltac:(lia)) as R. destruct (Hhead _ _ _ R) as (x & a & E & Hx). rewrite E in *.
@@ -200,3 +200,227 @@ Proof.
       exists 37%N, []. split; [reflexivity|]. split; [reflexivity|]. cbn [step parse_spec app].
       rewrite (lit_ok 37 R' eq_refl). reflexivity.
 Qed.
+
+(* ---------- the whole token sequence ---------- *)
+Lemma tok_eq_dec_space (t : tok) : {t = TLit 32%N} + {t <> TLit 32%N}.
+Proof.
+  destruct t as [c|c]; [|right; discriminate]. destruct (N.eq_dec c 32) as [->|H]; [left; reflexivity|right; congruence].
+Qed.
+
+Lemma separated_head t r : separated (t :: r) = true -> separated [t] = true /\ separated r = true.
+Proof.
+  destruct t as [c|c]; cbn [separated]; intros H.
+  - apply andb_prop in H. destruct H as [H1 H2]. rewrite H1. auto.
+  - apply andb_prop in H. destruct H as [H H3]. apply andb_prop in H. destruct H as [H1 H2]. rewrite H1.
+    split; [|exact H3]. destruct (greedy c); reflexivity.
+Qed.
+
+Lemma render_toks_head_lit c r m R' : render_toks (TLit c :: r) m = Some R' -> exists b, R' = c :: b.
+Proof. cbn [render_toks render_tok]. destruct (render_toks r m); [|discriminate]. intros H. injection H as <-. eauto. Qed.
+
+Lemma run_ok m : valid_moment m -> forall toks st target R,
+  separated toks = true -> render_toks toks m = Some R -> ltrim target = ltrim R ->
+  run toks st target = Some (apply_toks toks m st).
+Proof.
+  intros Hm toks. induction toks as [|t r IH]; intros st target R Hs HR Ht; [reflexivity|].
+  destruct (separated_head t r Hs) as [Hs1 Hs2].
+  cbn [render_toks] in HR. destruct (render_tok t m) as [a|] eqn:Ea; [|discriminate].
+  destruct (render_toks r m) as [R'|] eqn:ER; [|discriminate]. injection HR as <-.
+  cbn [run apply_toks]. rewrite Ht.
+  destruct (tok_eq_dec_space t) as [->|Hne].
+  - (* the space literal accepts anything and strips spaces *)
+    cbn [render_tok] in Ea. injection Ea as <-. cbn [app]. rewrite ltrim_space. cbn [step]. rewrite lit_space.
+    cbn [apply_tok]. rewrite ltrim_idem. apply (IH st (ltrim R') R' Hs2 eq_refl). apply ltrim_idem.
+  - assert (Hg : match t with TSpec c => if greedy c then no_digit_head R' else True | TLit _ => True end).
+    { destruct t as [c|c]; [exact I|]. destruct (greedy c) eqn:Eg; [|exact I].
+      cbn [separated] in Hs. rewrite Eg in Hs. destruct r as [|[c2|c2] r2].
+      - cbn in ER. injection ER as <-. exact I.
+      - destruct (render_toks_head_lit c2 r2 m R' ER) as (b & ->). cbn [no_digit_head].
+        cbn [separated] in Hs2. apply andb_prop in Hs2. destruct Hs2 as [Hl _]. unfold lit_char_ok in Hl.
+        apply andb_prop in Hl. destruct Hl as [Hl _]. apply andb_prop in Hl. destruct Hl as [Hl _].
+        apply andb_prop in Hl. destruct Hl as [_ Hl]. apply negb_true_iff in Hl. exact Hl.
+      - apply andb_prop in Hs. destruct Hs as [Hs _]. apply andb_prop in Hs. destruct Hs as [_ Hs]. discriminate. }
+    destruct (step_ok t m st R' Hm Hs1 Hne Hg) as (x & a' & E1 & Hx & E2).
+    rewrite Ea in E1. injection E1 as ->. cbn [app]. rewrite (ltrim_nonspace x (a' ++ R') Hx).
+    change (x :: a' ++ R') with ((x :: a') ++ R'). rewrite E2. apply (IH _ R' R' Hs2 eq_refl eq_refl).
+Qed.
+
+(* ---------- which fields end up set ---------- *)
+Lemma apply_fields m toks : separated toks = true -> forall st,
+  py (apply_toks toks m st) = (if has_spec 89 toks then Some (yr m) else py st) /\
+  pmo (apply_toks toks m st) = (if has_spec 109 toks || has_spec 99 toks then Some (mo m) else pmo st) /\
+  pd (apply_toks toks m st) = (if has_spec 100 toks || has_spec 101 toks then Some (dy m) else pd st) /\
+  ph (apply_toks toks m st) = (if has_spec 72 toks || has_spec 107 toks || has_spec 84 toks then Some (hh m) else ph st) /\
+  pmi (apply_toks toks m st) = (if has_spec 105 toks || has_spec 84 toks then Some (mi m) else pmi st) /\
+  psec (apply_toks toks m st) = (if has_spec 115 toks || has_spec 83 toks || has_spec 84 toks then Some (ss m) else psec st) /\
+  pus (apply_toks toks m st) = (if has_spec 102 toks then Some (us m) else pus st) /\
+  pam (apply_toks toks m st) = pam st /\ has_spec 112 toks = false.
+Proof.
+  induction toks as [|t r IH]; intros Hs st; [cbn; repeat split; reflexivity|].
+  destruct (separated_head t r Hs) as [Hs1 Hs2]. specialize (IH Hs2).
+  destruct t as [c|c].
+  - cbn [apply_toks apply_tok]. destruct (IH st) as (I1 & I2 & I3 & I4 & I5 & I6 & I7 & I8 & I9).
+    unfold has_spec in *. cbn [existsb orb]. repeat split; assumption.
+  - cbn [separated] in Hs1. rewrite andb_true_r in Hs1. apply andb_prop in Hs1. destruct Hs1 as [Ha _].
+    cbn [apply_toks].
+    destruct (IH (apply_tok (TSpec c) m st)) as (I1 & I2 & I3 & I4 & I5 & I6 & I7 & I8 & I9).
+    rewrite I1, I2, I3, I4, I5, I6, I7, I8. unfold has_spec in *. cbn [existsb].
+    destruct (allowed_cases c Ha) as [->|[->|[->|[->|[->|[->|[->|[->|[->|[->|[->|[->| ->]]]]]]]]]]]];
+      cbn [apply_tok N.eqb Pos.eqb orb py pmo pd ph pmi psec pus pam set_y set_mo set_d set_h set_mi set_s set_us];
+      repeat split; try assumption;
+      repeat match goal with |- context [existsb ?f r] => destruct (existsb f r) end; reflexivity.
+Qed.
+
+(* ---------- the characters of a rendering ---------- *)
+Definition nonws (s : list N) : Prop := Forall (fun x => is_ws x = false) s.
+Lemma rendered_nonws w s v : rendered w s v -> nonws s /\ s <> [].
+Proof.
+  intros [Hd Hn _ _]. split; [|exact Hn]. unfold nonws. eapply Forall_impl; [|exact Hd]. intros a. apply digit_not_ws.
+Qed.
+
+Lemma render_spec_text c m : allowed c = true -> valid_moment m ->
+  exists a, render_spec c m = Some a /\ nonws a /\ a <> [].
+Proof.
+  intros Ha Hm. pose proof (valid_bounds m Hm) as (Hmo & Hdy). destruct Hm as (Hy & Hv & Hh & Hi & Hse & Hu).
+  destruct (allowed_cases c Ha) as [->|[->|[->|[->|[->|[->|[->|[->|[->|[->|[->|[->| ->]]]]]]]]]]]]; cbn [render_spec];
+    eexists; (split; [reflexivity|]).
+  - apply (rendered_nonws _ _ _ (pad4_r (yr m) ltac:(lia))).
+  - apply (rendered_nonws _ _ _ (pad2_r (mo m) ltac:(lia))).
+  - apply (rendered_nonws _ _ _ (dec_r (mo m) ltac:(lia))).
+  - apply (rendered_nonws _ _ _ (pad2_r (dy m) ltac:(lia))).
+  - apply (rendered_nonws _ _ _ (dec_r (dy m) ltac:(lia))).
+  - apply (rendered_nonws _ _ _ (pad2_r (hh m) ltac:(lia))).
+  - apply (rendered_nonws _ _ _ (dec_r (hh m) ltac:(lia))).
+  - apply (rendered_nonws _ _ _ (pad2_r (mi m) ltac:(lia))).
+  - apply (rendered_nonws _ _ _ (pad2_r (ss m) ltac:(lia))).
+  - apply (rendered_nonws _ _ _ (pad2_r (ss m) ltac:(lia))).
+  - apply (rendered_nonws _ _ _ (padw_r 6 (us m) ltac:(lia))).
+  - destruct (rendered_nonws _ _ _ (pad2_r (hh m) ltac:(lia))) as [N1 E1].
+    destruct (rendered_nonws _ _ _ (pad2_r (mi m) ltac:(lia))) as [N2 _].
+    destruct (rendered_nonws _ _ _ (pad2_r (ss m) ltac:(lia))) as [N3 _]. split.
+    + unfold nonws in *. apply Forall_app. split; [exact N1|]. constructor; [reflexivity|].
+      apply Forall_app. split; [exact N2|]. constructor; [reflexivity|exact N3].
+    + destruct (padw 2 (hh m)); [congruence|discriminate].
+  - split; [constructor; [reflexivity|constructor]|discriminate].
+Qed.
+
+Definition txt_ok (s : list N) : Prop := Forall (fun x => is_ws x = false \/ x = 32%N) s.
+Definition ends_nonws (s : list N) : Prop := exists p z, s = p ++ [z] /\ is_ws z = false.
+
+Lemma nonws_txt a : nonws a -> txt_ok a.
+Proof. unfold nonws, txt_ok. intros H. eapply Forall_impl; [|exact H]. intros x Hx. now left. Qed.
+Lemma nonws_ends a : nonws a -> a <> [] -> ends_nonws a.
+Proof.
+  intros H Hn. destruct (exists_last Hn) as (p & z & ->). exists p, z. split; [reflexivity|].
+  unfold nonws in H. apply Forall_app in H. destruct H as [_ H]. inversion H; assumption.
+Qed.
+Lemma ends_app a b : ends_nonws b -> ends_nonws (a ++ b).
+Proof. intros (p & z & -> & Hz). exists (a ++ p), z. split; [now rewrite app_assoc|exact Hz]. Qed.
+
+Lemma render_text m : valid_moment m -> forall toks, separated toks = true ->
+  exists R, render_toks toks m = Some R /\ txt_ok R /\ (toks <> [] -> ends_ok toks = true -> ends_nonws R).
+Proof.
+  intros Hm toks. induction toks as [|t r IH]; intros Hs.
+  - exists []. split; [reflexivity|]. split; [constructor|]. congruence.
+  - destruct (separated_head t r Hs) as [Hs1 Hs2]. destruct (IH Hs2) as (R' & ER & TR & EndR).
+    assert (Ht : exists a, render_tok t m = Some a /\ txt_ok a /\ a <> [] /\ (t <> TLit 32%N -> nonws a)).
+    { destruct t as [c|c].
+      - exists [c]. cbn [render_tok]. split; [reflexivity|]. cbn [separated] in Hs1. rewrite andb_true_r in Hs1.
+        unfold lit_char_ok in Hs1. apply andb_prop in Hs1. destruct Hs1 as [_ Hw]. apply orb_prop in Hw.
+        split; [|split; [discriminate|]].
+        + constructor; [|constructor]. destruct Hw as [Hw|Hw]; [left; now apply negb_true_iff in Hw|right; now apply N.eqb_eq in Hw].
+        + intros Hne. constructor; [|constructor]. destruct Hw as [Hw|Hw]; [now apply negb_true_iff in Hw|].
+          apply N.eqb_eq in Hw. subst. congruence.
+      - cbn [separated] in Hs1. rewrite andb_true_r in Hs1. apply andb_prop in Hs1. destruct Hs1 as [Ha _].
+        destruct (render_spec_text c m Ha Hm) as (a & E & Na & Ne). exists a. cbn [render_tok].
+        split; [exact E|]. split; [apply nonws_txt; exact Na|]. split; [exact Ne|]. intros _. exact Na. }
+    destruct Ht as (a & Ea & Ta & Nea & Nwa).
+    exists (a ++ R'). cbn [render_toks]. rewrite Ea, ER. split; [reflexivity|]. split.
+    + unfold txt_ok in *. apply Forall_app. split; assumption.
+    + intros _ He. destruct r as [|t2 r2].
+      * cbn in ER. injection ER as <-. rewrite app_nil_r. apply nonws_ends; [|exact Nea]. apply Nwa.
+        unfold ends_ok in He. cbn [last] in He. intros ->. cbn in He. discriminate.
+      * apply ends_app. apply EndR; [discriminate|]. unfold ends_ok in *. cbn [last] in *. exact He.
+Qed.
+
+Lemma ltrim_ws_txt R : txt_ok R -> ltrim_ws R = ltrim R.
+Proof.
+  induction 1 as [|c r Hc _ IH]; [reflexivity|]. cbn [ltrim_ws ltrim]. destruct Hc as [Hc| ->].
+  - rewrite Hc. assert (Hs : is_sp c = false).
+    { unfold is_ws in Hc. apply orb_false_iff in Hc. destruct Hc as [_ Hc]. exact Hc. }
+    rewrite Hs. reflexivity.
+  - change (is_ws 32) with true. change (is_sp 32) with true. exact IH.
+Qed.
+
+Lemma ltrim_keeps_end p z : is_ws z = false -> exists p', ltrim (p ++ [z]) = p' ++ [z].
+Proof.
+  intros Hz. induction p as [|c p IH].
+  - exists []. cbn [app ltrim]. assert (Hs : is_sp z = false).
+    { unfold is_ws in Hz. apply orb_false_iff in Hz. destruct Hz as [_ Hz]. exact Hz. }
+    rewrite Hs. reflexivity.
+  - cbn [app ltrim]. destruct (is_sp c); [exact IH|]. exists (c :: p). reflexivity.
+Qed.
+
+Lemma trim_ws_text R : txt_ok R -> ends_nonws R -> trim_ws R = ltrim R.
+Proof.
+  intros HT (p & z & -> & Hz). unfold trim_ws. rewrite (ltrim_ws_txt _ HT).
+  destruct (ltrim_keeps_end p z Hz) as (p' & E). rewrite E. rewrite rev_app_distr. cbn [rev app ltrim_ws].
+  rewrite Hz. change (z :: rev p') with ([z] ++ rev p'). rewrite rev_app_distr, rev_involutive. reflexivity.
+Qed.
+
+(* ---------- the theorem ---------- *)
+Theorem format_parse_inverse fmt toks m :
+  tokens fmt = FOk toks -> separated toks = true -> ends_ok toks = true -> complete toks = true ->
+  valid_moment m -> (has_spec 102 toks = true \/ us m = 0) ->
+  exists s, render fmt m = Some s /\
+            str_to_date s fmt = SVal (yr m, mo m, dy m) (((hh m * 60 + mi m) * 60 + ss m) * 1000000 + us m).
+Proof.
+  intros Ht Hs He Hc Hm Hf.
+  destruct (render_text m Hm toks Hs) as (R & ER & TR & EndR).
+  assert (Hne : toks <> []). { intros ->. cbn in Hc. discriminate. }
+  specialize (EndR Hne He).
+  exists R. split; [rewrite (render_tokens fmt toks m Ht); exact ER|].
+  unfold str_to_date. rewrite Ht.
+  destruct (apply_fields m toks Hs pst0) as (F1 & F2 & F3 & F4 & F5 & F6 & F7 & F8 & F9).
+  assert (Hconf : ampm_conflict toks = false).
+  { unfold ampm_conflict. destruct (first_time_spec toks); [|reflexivity]. rewrite F9. apply andb_false_r. }
+  rewrite Hconf.
+  rewrite (run_ok m Hm toks pst0 (trim_ws R) R Hs ER) by (rewrite (trim_ws_text R TR EndR); apply ltrim_idem).
+  unfold complete in Hc.
+  apply andb_prop in Hc. destruct Hc as [Hc C6]. apply andb_prop in Hc. destruct Hc as [Hc C5].
+  apply andb_prop in Hc. destruct Hc as [Hc C4]. apply andb_prop in Hc. destruct Hc as [Hc C3].
+  apply andb_prop in Hc. destruct Hc as [C1 C2].
+  rewrite C1 in F1. rewrite C2 in F2. rewrite C3 in F3. rewrite C4 in F4. rewrite C5 in F5. rewrite C6 in F6.
+  set (st := apply_toks toks m pst0) in *.
+  assert (Hemp : is_empty st = false) by (unfold is_empty; rewrite F1; reflexivity).
+  rewrite Hemp. unfold eval. rewrite F1, F2, F3, F4, F5, F6, F7. cbn [dflt].
+  assert (Hus : dflt (if has_spec 102 toks then Some (us m) else pus pst0) = us m).
+  { destruct Hf as [Hf|Hf]; [rewrite Hf; reflexivity|]. destruct (has_spec 102 toks); cbn; lia. }
+  rewrite Hus. destruct Hm as (Hy & Hv & Hh & Hi & Hse & Hu).
+  rewrite (go_date_valid_id _ _ _ Hv).
+  set (tod := ((hh m * 60 + mi m) * 60 + ss m) * 1000000 + us m).
+  assert (Htod : 0 <= tod < usday) by (unfold tod, usday; lia).
+  unfold add_us. replace (days_from_civil (yr m, mo m, dy m) * usday + 0 + tod) with (tod + days_from_civil (yr m, mo m, dy m) * usday) by lia.
+  assert (Hu0 : usday <> 0) by (unfold usday; lia).
+  rewrite Z.div_add, Z.mod_add by exact Hu0. rewrite Z.div_small, Z.mod_small by exact Htod.
+  rewrite Z.add_0_l, (civil_days_civil _ Hv). reflexivity.
+Qed.
+
+(* non-vacuity and the necessity of the guards *)
+Example canonical_is_guarded :
+  exists toks, tokens canonical_fmt = FOk toks /\ separated toks = true /\ ends_ok toks = true /\ complete toks = true.
+Proof. eexists. split; [vm_compute; reflexivity|]. repeat split; vm_compute; reflexivity. Qed.
+
+(* adjacent greedy fields: '%Y%m%d%H%i%s' renders 20320228235849, which STR_TO_DATE cannot read back *)
+Lemma greedy_adjacent_fails :
+  let fmt := [37;89;37;109;37;100;37;72;37;105;37;115]%N in
+  let m := {| yr := 2032; mo := 2; dy := 28; hh := 23; mi := 58; ss := 49; us := 0 |} in
+  exists s, render fmt m = Some s /\ str_to_date s fmt = SNull.
+Proof. eexists. split; vm_compute; reflexivity. Qed.
+
+(* the AM/PM flag is parsed and ignored: '%Y-%m-%d %r' of 15:04:05 reads back as 03:04:05 *)
+Lemma ampm_ignored :
+  let fmt := [37;89;45;37;109;45;37;100;32;37;114]%N in
+  let m := {| yr := 2024; mo := 1; dy := 2; hh := 15; mi := 4; ss := 5; us := 0 |} in
+  exists s, render fmt m = Some s /\ str_to_date s fmt = SVal (2024, 1, 2) (((3 * 60 + 4) * 60 + 5) * 1000000).
+Proof. eexists. split; vm_compute; reflexivity. Qed.
